@@ -321,7 +321,8 @@ def restrict(desc, allowed, counts=None):
                         kind = "cjmp:condition replaced"
                     else:
                         repl = None
-                        if parts[2] in ("i8", "u8", "i16", "u16") and "cjmp %s %s %s" % (parts[1], wide, parts[3]) in allowed:
+                        wconds = [cd for cd in (parts[1], "==", "!=", "<", ">", "<=", ">=") if "cjmp %s %s %s" % (cd, wide, parts[3]) in allowed]
+                        if parts[2] in ("i8", "u8", "i16", "u16") and wconds:
                             # what a C front end does: integer promotion of both operands, then compare
                             pre, names = [], []
                             for opnd, k, sfx in ((ins[1], parts[3][0], "w"), (ins[3], parts[3][1], "x")):
@@ -335,11 +336,12 @@ def restrict(desc, allowed, counts=None):
                                     break
                                 names.append(nn)
                             if pre is not None:
-                                repl = pre + [["cjmp", names[0], ins[2], names[1], ins[4], ins[5]]]
+                                repl = pre + [["cjmp", names[0], wconds[0], names[1], ins[4], ins[5]]]
                                 kind = "cjmp:operands promoted"
-                        if repl is None and "cjmp %s i32 cc" % parts[1] in allowed:
+                        cconds = [cd for cd in (parts[1], "==", "!=", "<", ">") if "cjmp %s i32 cc" % cd in allowed]
+                        if repl is None and cconds:
                             a, b = "k%d_w%d" % (ii, bi), "k%d_x%d" % (ii, bi)
-                            repl = [["const", a, "i32", 1], ["const", b, "i32", 0], ["cjmp", a, ins[2], b, ins[4], ins[5]]]
+                            repl = [["const", a, "i32", 1], ["const", b, "i32", 0], ["cjmp", a, cconds[0], b, ins[4], ins[5]]]
                             kind = "cjmp:operands replaced by constants"
                         if repl is None:
                             bad.append(c)
